@@ -93,6 +93,21 @@ def part_a(rec, li, n, seed, only=None):
                                 rec.violation("single-axis", "values:float32", dict(case, dtype="float32"), exp, r32.values)
                         except Exception as e:
                             rec.violation("single-axis", "raise:float32:" + exc_sig(e), dict(case, dtype="float32"), "array", f"{type(e).__name__}: {e}"[:200])
+                        # narrow integer and boolean data: the running sum is a sum, it neither wraps around nor saturates
+                        if float(fv).is_integer() and abs(fv) < 100:
+                            m_ = base.shape[1]
+                            small = {"int8": (np.arange(m_) % 3 * 50 + 30).astype(np.int8)[None, :].repeat(2, 0), "bool": (np.arange(2 * m_).reshape(2, m_) % 3 > 0)}
+                            for nm_, arr_ in small.items():
+                                try:
+                                    rs_ = g.cumsum(xr.DataArray(arr_, dims=da.dims), "X", **kw)
+                                    rec.calls += 1
+                                    e_ = S.ref_cumsum(arr_.astype(float), fr, to, n, rule, fv)
+                                    if not np.array_equal(np.asarray(rs_.values, dtype=float), e_):
+                                        rec.violation("single-axis", f"values:{nm_}", dict(case, dtype=nm_), e_, rs_.values)
+                                        break
+                                except Exception as e:
+                                    rec.violation("single-axis", f"raise:{nm_}:" + exc_sig(e), dict(case, dtype=nm_), "array", f"{type(e).__name__}: {e}"[:200])
+                                    break
 
 
 def part_b(rec, si, tier, seed, only=None):
